@@ -157,33 +157,38 @@ type Variations struct {
 var AllVariations = Variations{true, true, true, true, true, true, true}
 var StandardVariations = Variations{Case: true, DefaultPort: true, DotSegments: true, TabsNL: true, Surround: true}
 
-func encodeDepth(r *rand.Rand, c byte, depth int) string {
-	s := string(c)
-	for d := 0; d < depth; d++ {
-		// encode the first character of s (which is either c or '%')
-		h := fmt.Sprintf("%02X", s[0])
-		if r.IntN(2) == 0 {
-			h = strings.ToLower(h)
-		}
-		s = "%" + h + s[1:]
-	}
-	return s
-}
-
-func spellToken(r *rand.Rand, s string, v Variations) string {
-	if !v.Encoding {
-		return s
-	}
-	p := []float64{0, 0.15, 0.5, 1}[r.IntN(4)]
+// encodeLayer percent-encodes each character of s with probability p (hex digits in random case).
+func encodeLayer(r *rand.Rand, s string, p float64) string {
 	var sb strings.Builder
 	for i := 0; i < len(s); i++ {
 		if r.Float64() < p {
-			sb.WriteString(encodeDepth(r, s[i], 1+r.IntN(3)))
+			h := fmt.Sprintf("%02X", s[i])
+			if r.IntN(2) == 0 {
+				h = strings.ToLower(h)
+			}
+			sb.WriteString("%" + h)
 		} else {
 			sb.WriteByte(s[i])
 		}
 	}
 	return sb.String()
+}
+
+// spellToken writes a token of unreserved characters with 0-3 LAYERS of percent-encoding:
+// each layer encodes any subset of the characters of the previous layer's text - also the
+// '%' and the hex digits of escapes written by an earlier layer (nested encoding in the
+// general sense: "%61", "%2561", "%25%36%31", "%%361" all decode, layer by layer, to "a").
+func spellToken(r *rand.Rand, s string, v Variations) string {
+	if !v.Encoding {
+		return s
+	}
+	layers := r.IntN(4)
+	p := []float64{0.15, 0.5, 1}[r.IntN(3)]
+	for l := 0; l < layers && len(s) < 200; l++ {
+		s = encodeLayer(r, s, p)
+		p = []float64{0.1, 0.3, 0.6}[r.IntN(3)]
+	}
+	return s
 }
 
 // Spell writes w in one of its spellings.
